@@ -99,6 +99,9 @@ func runCase(c *Ctx, prop string, ac appCase, nontrivialKeys []string) {
 	idx.Reset()
 	w := sim.NewWorld(ac.Seed, ac.Prof, idx)
 	w.Env.Monitors = monitorsFor(prop, ac.Seed, idx)
+	if osGetenv("VCHECK_TRACE") != "" {
+		w.Env.Monitors = append([]sim.Monitor{mon.Trace{}}, w.Env.Monitors...)
+	}
 	ic := w.Start(dbm.NewMemDB())
 	c.Res.Cases++
 	if ic.Panic != "" {
@@ -294,6 +297,7 @@ func profileFor(prop string, r *sim.Rand, i int, quick bool) sim.Profile {
 		}
 	case "C17":
 		p.W["govparam"], p.W["dao"], p.W["acl"], p.W["upgrade"] = 30, 20, 10, 6
+		p.NoDAOOwner = i%5 == 2
 		p.HostilePct = 15
 		p.EvidencePct, p.BurnPct = 0, 0
 	}
@@ -318,9 +322,13 @@ func appRun(prop string, nontrivial []string) func(c *Ctx) {
 			if !c.Mine(i) {
 				continue
 			}
+			if oc := osGetenv("VCHECK_ONLY_CASE"); oc != "" && oc != fmt.Sprint(i) {
+				continue
+			}
 			p := profileFor(prop, r, i, c.Quick())
 			ac := appCase{ID: fmt.Sprintf("h%d", i), Seed: r.U64(), Prof: p}
-			if sc := scenarioFor(prop, i, r); sc != nil {
+			if sc, tweak := scenarioFor(prop, i, r); sc != nil {
+				tweak(&ac.Prof)
 				ac.Scenario = sc
 				ac.Prof.Name += "+scenario"
 			}
